@@ -31,34 +31,11 @@ ASSUMPTIONS = ["CLVM evaluation is an oracle table recorded from the real interp
                "SpendBundle::additions runs with dialect flags 0: compared on cases whose CLVM flag bits are 0"]
 TRUSTED = ["hand-written mirrors coq/Chain/Trusted.v tied to the helpers by this stream"]
 
-PENDING = {"F-C09-1": "empty-memo-hint", "F-C09-2": "lookup-with-spend-extras"}
+# no known findings for C09: F-C09-1 (empty first memo) and F-C09-2 (spend-level extras) were fixed in /repo by
+# 0a21e864 and 1aa0e3f6; both classes are generated and checked strictly in the default stream.
 
 
-def listed_ids():
-    return {k["id"] for k in C.load_known() if k.get("property") == "C09" and k.get("status") == "known"}
-
-
-def classify_known(f, known):
-    """F-C09-1: the ONLY difference is a hint: validation None vs helper Some("") (empty-atom first memo).
-    F-C09-2: the ONLY failure is the lookup of a removed coin in a block that has spend-level extras."""
-    ids = {k["id"] for k in known}
-    if f["stream"] != "gen.oracle09":
-        return None
-    out = f["impl"]
-    if not out.startswith("FAIL "):
-        return None
-    hit = []
-    for part in out[5:].split(" "):
-        if part == "hint-differs:validated=N:helper=S:-" and "F-C09-1" in ids:
-            hit.append("F-C09-1")
-        elif part.startswith("lookup-fails:") and part[13:].isdigit() and "F-C09-2" in ids and f["case"].endswith(" extras"):
-            hit.append("F-C09-2")
-        else:
-            return None                 # any other component is a new violation
-    return hit[0] if hit else None
-
-
-def memo_rewriter(rng, allow_empty):
+def memo_rewriter(rng, allow_empty=True):
     shapes = ["absent", "nil", "b32", "b33", "b1", "two", "pair-first", "improper", "atom", "b32-nonnil-tail"]
     if allow_empty:
         shapes.append("empty-first")
